@@ -30,7 +30,8 @@ CLAIMED = {
              "rows, for all databases with consistent bins and all 1 <= start <= end incl. >= 2^29 (uses the C12 "
              "overlap-soundness theorem to show the bin clause removes nothing); one-sided and seqid-omitted forms; "
              "Feature form = tuple form. The model is tied to the code by running ~6k queries per quick run on "
-             "databases built by the real importer (three construction routes) whose stored tables are handed to Coq.",
+             "databases built by the real importer (three construction routes) whose stored tables are handed to Coq; all queries of a "
+             "case are asked for first and read in lock-step, and a feature arriving later on an unseen seqid must be found.",
         note="Trusted: Coq kernel + vm_compute; the hand-written Model/Query.v is tied to interface.region / "
              "helpers.make_query only by the correspondence (differential, boundary-pool generators); sqlite semantics "
              "(NULL comparisons, affinity) are modelled. Domain: start<=end rows with both or neither coordinate, "
@@ -143,7 +144,8 @@ CLAIMED = {
              "by importing ~900 generated graphs per quick run (all line orders for small graphs in the thorough tier) and "
              "comparing the whole relations table and ~50 children/parents queries per graph inside Coq, against both the model "
              "and the declarative Parent graph; 30% of the graphs go through create_db + update() from a lazy source that "
-             "itself queries the database.",
+             "itself queries the database; some files open with a dozen one-key-per-value lines; iter_by_parent_childs units are "
+             "compared with children() for every ordering asked.",
         note="Trusted: Coq kernel + vm_compute; Model/Import.v and Model/Query.v are hand-written and tied to the code by the "
              "correspondence only; sqlite semantics (PRIMARY KEY, INSERT OR IGNORE, DISTINCT) modelled. Domain: one ID value per "
              "line, ids unique, non-empty, without tab/CR/LF (ids with a TAB make _update_relations raise: out of domain, see "
